@@ -190,6 +190,11 @@ func checkOwnership(text []byte) (bad, exp, got string) {
 		full[i] = 0xFF
 	}
 	// further use of the same reader on other documents must not disturb earlier results either
+	// (successful, failing at each entry point, then successful again)
+	vr.ReadValue([]byte(`{"zzzz":["yyyy","` + "\\" + `n"],"` + "\\" + `t":{"q":"wwww"}}`))
+	vr.ReadValue([]byte(`{"zz":["yy",`))
+	vr.ReadObject([]byte(`{"zz":"yy","q":}`))
+	vr.ReadArray([]byte(`["zz","yy",x]`))
 	vr.ReadValue([]byte(`{"zzzz":["yyyy","` + "\\" + `n"],"` + "\\" + `t":{"q":"wwww"}}`))
 	vr.ReadValue([]byte(`["overwrite","overwrite"]`))
 	if err1 == nil && !ref.SameTree(v1, f1) {
@@ -254,6 +259,7 @@ func c16(r *eng.Run) {
 		handWritten: true,
 		refKey:      func(w []byte, a *ref.PDA) string { return a.Key() + ref.StrRefine(w) },
 		noPump:      true,
+		noWindow:    true, // the window runs of the per-property searches already cover writes beyond len
 	}
 	res2 := runE1(r, sp2, 1, K, r.Pick(20000, 200000))
 	e1Evidence(r, 1, K, res, res2)
